@@ -166,6 +166,111 @@ func registerRound2() {
 		})
 	}
 
+	// ---------------------------------------------------------------- C05: frame sizes around buffer boundaries
+	// the frame is the last thing its handler writes (no final response behind it that would flush it out)
+	for _, n := range []int{4000, 4080, 4100, 8192, 16300, 16400, 20000} {
+		regSpec(&Spec{
+			Name: fmt.Sprintf("last-frame-of-%d-bytes", n), Props: []string{"C05", "C04"},
+			Conns: []ConnSpec{{Ops: []string{"search"}, H: map[int]*HSpec{1: {Frames: []int{n}, NoFinal: true}}, Expect: 1}},
+			Quick: 2, Thor: 3,
+		})
+	}
+	for _, pr := range [][2]int{{5000, 5000}, {5000, 12000}, {12000, 5000}, {100, 9000}} {
+		regSpec(&Spec{
+			Name: fmt.Sprintf("two-writers-last-frames-%d-%d", pr[0], pr[1]), Props: []string{"C05", "C04"},
+			Conns: []ConnSpec{{Ops: []string{"search", "search"}, H: map[int]*HSpec{1: {WaitStarted: 2, Frames: []int{pr[0]}, NoFinal: true}, 2: {WaitStarted: 2, Frames: []int{pr[1]}, NoFinal: true}}, Expect: 2}},
+			Quick: 2, Thor: 3,
+		})
+	}
+	// a handler in the middle of a large write (client with a 1 KiB window, reading late) when a StartTLS request
+	// arrives: not a conforming client, but the writers of one connection still have to exclude each other
+	regSpec(&Spec{
+		Name: "starttls-request-while-a-handler-writes", Props: []string{"C05", "C13", "C15"},
+		Conns: []ConnSpec{{Ops: []string{"search", "starttls-silent"}, Segs: []int{1}, H: map[int]*HSpec{1: {Frames: []int{70000}}}, Read: "none", RecvBuf: 1024}},
+		Quick: 2, Thor: 3,
+	})
+
+	// ---------------------------------------------------------------- C13: StartTLS served by the default route
+	for _, y := range []int{0, 2} {
+		regSpec(&Spec{
+			Name: fmt.Sprintf("starttls-via-default-route-y%d", y), Props: []string{"C13", "C06"},
+			Srv:   SrvOpts{OnlyRoutes: []string{"bind", "search", "default", "unbind"}},
+			Conns: []ConnSpec{{Ops: []string{"bind", "starttls", "bind", "search"}, Segs: []int{1, 1, 1}, H: map[int]*HSpec{2: {Yields: y, YieldsAfter: y}}, Expect: 4}},
+			Check: startTLSCheck(1), Quick: 2, Thor: 3,
+		})
+	}
+	// many sessions fail their handshake one after the other, then a conforming one upgrades (nothing a failed
+	// handshake holds on to may run out)
+	{
+		var conns []ConnSpec
+		for i := 0; i < 20; i++ {
+			c := ConnSpec{Ops: []string{"starttls-badhello"}, Read: "none", Name: fmt.Sprintf("bad%d", i+1)}
+			if i > 0 {
+				c.After = i
+			}
+			conns = append(conns, c)
+		}
+		conns = append(conns, ConnSpec{Ops: []string{"starttls", "bind"}, Expect: 2, Name: "good", After: 20})
+		regSpec(&Spec{
+			Name: "starttls-after-20-failed-handshakes", Props: []string{"C13", "C07"},
+			Conns: conns,
+			Check: func(x *vrt.Sched, w *World) []Finding {
+				for _, c := range w.Clients {
+					if c.Name == "good" && w.Notes["good-upgraded"] == 0 && !x.Deadlock && x.Crash == nil {
+						return []Finding{{"C13", "a conforming StartTLS session fails after other sessions failed their handshakes", fmt.Sprintf("log %v", x.Log)}}
+					}
+				}
+				return nil
+			},
+			Quick: 0, Thor: 1, MaxPts: 2000000,
+		})
+	}
+
+	// ---------------------------------------------------------------- C09: the router is replaced while connections exist
+	regSpec(&Spec{
+		// C15 is stated "with routes registered before Run": Router at run time is outside it (Run reads
+		// s.router without the lock that Router writes it under - noted in DESIGN.md, not a finding)
+		NoRaces: true,
+		Name:    "router-replaced-between-connections", Props: []string{"C09", "C08", "C03"},
+		Conns: []ConnSpec{
+			{Ops: []string{"bind", "search"}, Segs: []int{1, 1}, Sync: true, Expect: 2, EndNote: "c2-done"},
+			{Ops: []string{"bind", "search"}, Segs: []int{1, 1}, Expect: 2, WaitNote: "router-replaced"},
+		},
+		Extra: func(w *World) {
+			vrt.GoNamed("reconfigure", func() {
+				vrt.WaitUntil("first-served", func() bool { return w.Finished >= 1 })
+				_ = w.Srv.Router(w.buildMux(w.Opts))
+				vrt.Atomic(func() { w.Notes["router-replaced"]++ })
+			})
+		},
+		Quick: 2, Thor: 3,
+	})
+
+	// ---------------------------------------------------------------- C10: Unbind after trouble earlier on the connection
+	regSpec(&Spec{
+		Name: "unbind-after-recovered-handler-panic", Props: []string{"C10", "C08", "C11"},
+		Conns: []ConnSpec{{Ops: []string{"bind", "search", "unbind", "bind"}, Segs: []int{1, 1, 2}, Sync: false, H: map[int]*HSpec{2: {Panic: "before"}}, Read: "all"}},
+		Quick: 2, Thor: 3,
+	})
+	regSpec(&Spec{
+		Name: "unbind-after-failed-response-write", Props: []string{"C10", "C08", "C12"},
+		Srv:   SrvOpts{WriteTimeout: secs(5)},
+		Conns: []ConnSpec{{IdleBefore: 10, Ops: []string{"bind", "unbind", "search"}, Segs: []int{1, 2}, H: map[int]*HSpec{1: {YieldsAfter: 1}}, Read: "all"}},
+		Quick: 2, Thor: 3,
+	})
+	// ---------------------------------------------------------------- C11: Stop after response writes failed
+	regSpec(&Spec{
+		Name: "stop-after-failed-response-writes", Props: []string{"C11", "C08", "C05"},
+		Srv:         SrvOpts{WriteTimeout: secs(5)},
+		Conns:       []ConnSpec{{IdleBefore: 10, Ops: []string{"bind", "bind", "search"}, Segs: []int{1, 1, 1}, H: map[int]*HSpec{3: {Frames: []int{10, 10}}}, Read: "none", End: "stay"}},
+		ClientsIdle: true, Quick: 2, Thor: 3,
+	})
+	regSpec(&Spec{
+		Name: "stop-after-client-left-mid-search", Props: []string{"C11", "C08"},
+		Conns: []ConnSpec{{Ops: []string{"search"}, H: map[int]*HSpec{1: {WaitNote: "c1-done", Frames: []int{10, 10, 10}}}, Read: "none", End: "reset"}},
+		Quick: 2, Thor: 3,
+	})
+
 	// ---------------------------------------------------------------- C11
 	// Stop while a StartTLS handler waits for a ClientHello that never comes
 	regSpec(&Spec{
